@@ -589,3 +589,6 @@ CHECKS["C13"]["status"] += ("; boundaries that read a resource (Props/C13Readers
     "the disposal of the owner, a boundary holds a guard only while the latest fetch is outstanding and the owner lives, a dependency change or the completion of a superseded "
     "fetch does not release it, the next fetch suspends the boundaries recorded in between")
 CHECKS["C09"]["classes"] = CHECKS["C09"]["classes"] + ["hydrate-build-write-attr"]
+CHECKS["C05"]["classes"] = (CHECKS["C05"].get("classes") or []) + ["view-write-before-mount"]
+# C11 "without corrupting later updates": the consistency oracles on the surviving graph belong to C11 as well
+CHECKS["C11"]["classes"] = CHECKS["C11"]["classes"] + ["stale-value", "missed-run", "dirty-at-rest", "cleanup-missing", "cleanup-twice"]
